@@ -644,7 +644,7 @@ def spec_tree_violations(c, res):
 # ---------------------------------------------------------------------------------------------------
 # C: edits
 EDIT_NAMES = ['latin-1', 'Latin-1', 'KOI8-R', 'utf-8', 'ascii', 'UTF-16', 'iso-8859-7', 'rot13', 'bogus', '123', 'latin 1', 'x;y', '']
-KINDS = ['comment', 'unknown', 'import', 'variables', 'style']
+KINDS = ['comment', 'unknown', 'import', 'variables', 'namespace', 'style']
 
 
 def text_codec(n):
@@ -705,6 +705,9 @@ def op_word(o):
         return 'ins/%s/%s/%d' % (o['rule'], idx(o['index']), o['inorder'])
     if k == 'insn':
         return 'insn/%s/%s/%d' % (enc(o['name']), idx(o['index']), o['inorder'])
+    if k == 'inst':
+        return 'inst/%s/%s/%d' % ((','.join(('charset=' + enc(r[8:].lower())) if r.startswith('charset=') else r
+                                             for r in o['rules']) or '-'), idx(o['index']), o['inorder'])
     if k == 'del':
         return 'del/%d' % o['i']
     if k == 'renc':
@@ -735,7 +738,18 @@ def gen_edits(rng):
                 if rng.random() < 0.25:
                     # `insertRule(rule, index, inOrder=True)`: documented as "ignoring index"
                     ops[-1].update(index=rng.choice([0, 0, 1, 2]))
-        elif x < 0.80:
+        elif x < 0.74:
+            # the rule given as text: mostly one rule, sometimes none / two / one that starts with @charset
+            y = rng.random()
+            if y < 0.7:
+                rules = [rng.choice(KINDS)]
+            elif y < 0.8:
+                rules = ['charset=' + rng.choice(['latin-1', 'ascii', 'koi8-r'])]
+            else:
+                rules = [rng.choice(KINDS + ['charset=ascii']) for _ in range(rng.choice([0, 2, 2]))]
+            ops.append({'op': 'inst', 'rules': rules, 'index': rng.choice([None, 0, 0, 1, 2, 3, 9]),
+                        'inorder': rng.random() < 0.3})
+        elif x < 0.82:
             ops.append({'op': 'del', 'i': rng.choice([0, 0, 0, 1, 2, 5])})
         elif x < 0.90:
             ops.append({'op': 'renc', 'i': 0, 'e': rng.choice(good + ['bogus', '123', 'latin 1'])})
@@ -750,6 +764,19 @@ def gen_edits(rng):
 
 def fixed_edits():
     return [
+        [{'op': 'inst', 'rules': ['style'], 'index': None, 'inorder': False}, {'op': 'enc', 'e': 'latin-1'},
+         {'op': 'inst', 'rules': ['import'], 'index': 1, 'inorder': False}, {'op': 'inst', 'rules': ['import'], 'index': 0, 'inorder': False},
+         {'op': 'inst', 'rules': ['charset=ascii'], 'index': 0, 'inorder': False},
+         {'op': 'inst', 'rules': ['charset=ascii'], 'index': None, 'inorder': True},
+         {'op': 'inst', 'rules': ['namespace'], 'index': 0, 'inorder': True}, {'op': 'inst', 'rules': [], 'index': 0, 'inorder': False},
+         {'op': 'inst', 'rules': ['comment', 'style'], 'index': 1, 'inorder': False},
+         {'op': 'inst', 'rules': ['style', 'charset=ascii'], 'index': 1, 'inorder': False},
+         {'op': 'inst', 'rules': ['variables'], 'index': 9, 'inorder': False}],
+        [{'op': 'enc', 'e': 'latin-1'}, {'op': 'ins', 'rule': 'namespace', 'index': 0, 'inorder': True},
+         {'op': 'ins', 'rule': 'namespace', 'index': 0, 'inorder': False}, {'op': 'ins', 'rule': 'import', 'index': 1, 'inorder': False},
+         {'op': 'ins', 'rule': 'namespace', 'index': None, 'inorder': True}, {'op': 'ins', 'rule': 'style', 'index': 1, 'inorder': False},
+         {'op': 'ins', 'rule': 'import', 'index': 3, 'inorder': False}, {'op': 'del', 'i': 1}, {'op': 'enc', 'e': None},
+         {'op': 'text', 'rules': ['charset=ascii', 'namespace', 'import', 'namespace', 'variables', 'namespace']}],
         [{'op': 'enc', 'e': 'Latin-1'}, {'op': 'enc', 'e': 'bogus'}, {'op': 'enc', 'e': 'KOI8-R'}, {'op': 'enc', 'e': None}],
         [{'op': 'ins', 'rule': 'style', 'index': None, 'inorder': False}, {'op': 'enc', 'e': 'ascii'},
          {'op': 'ins', 'rule': 'comment', 'index': 0, 'inorder': False}, {'op': 'ins', 'rule': 'import', 'index': 0, 'inorder': False},
@@ -774,6 +801,9 @@ def mk_rule(cssutils, kind, k):
         return css.CSSImportRule(href='http://h/i.css')
     if kind == 'variables':
         return css.CSSVariablesRule()
+    if kind == 'namespace':
+        # a prefix and a URI that no other rule of the history has (the model's `Rule.ns`)
+        return css.CSSNamespaceRule(namespaceURI='http://n/%d' % k, prefix='p%d' % k)
     return [lambda: css.CSSStyleRule(selectorText='a'), lambda: css.CSSMediaRule('print'), lambda: css.CSSPageRule(),
             lambda: css.CSSFontFaceRule()][k % 4]()
 
@@ -796,6 +826,8 @@ def show_rules(sheet):
             out.append('import')
         elif t == r.VARIABLES_RULE:
             out.append('variables')
+        elif t == r.NAMESPACE_RULE:
+            out.append('namespace')
         elif t in (r.STYLE_RULE, r.MEDIA_RULE, r.PAGE_RULE, r.FONT_FACE_RULE):
             out.append('style')
         else:
@@ -822,6 +854,11 @@ def run_edits(cssutils, ops):
                 else:
                     rule = cssutils.css.CSSCharsetRule(encoding=o['name'])
                 sheet.insertRule(rule, o['index'], inOrder=o['inorder'])
+            elif o['op'] == 'inst':
+                text = ''.join(('@charset "%s";' % r[8:]) if r.startswith('charset=') else
+                               ('@namespace s%d_%d "http://n/s%d_%d";' % (k, j, k, j)) if r == 'namespace' else TEXT_OF[r]
+                               for j, r in enumerate(o['rules']))
+                sheet.insertRule(text, o['index'], inOrder=o['inorder'])
             elif o['op'] == 'del':
                 sheet.deleteRule(o['i'])
             elif o['op'] == 'renc':
@@ -831,8 +868,9 @@ def run_edits(cssutils, ops):
                 else:
                     status = 'IndexSizeErr'
             elif o['op'] == 'text':
-                sheet.cssText = ''.join(('@charset "%s";' % r[8:]) if r.startswith('charset=') else TEXT_OF[r]
-                                        for r in o['rules'])
+                sheet.cssText = ''.join(('@charset "%s";' % r[8:]) if r.startswith('charset=') else
+                                        ('@namespace t%d_%d "http://n/t%d_%d";' % (k, j, k, j)) if r == 'namespace' else TEXT_OF[r]
+                                        for j, r in enumerate(o['rules']))
         except xml.dom.DOMException as e:
             status = type(e).__name__
         finally:
